@@ -4,7 +4,6 @@ package drivers
 // files, the custom runner's socket directory, goroutines in the host.
 
 import (
-	"sync"
 	"context"
 	"encoding/json"
 	"fmt"
@@ -13,6 +12,7 @@ import (
 	"regexp"
 	"strconv"
 	"strings"
+	"sync"
 	"testing"
 	"time"
 
